@@ -294,6 +294,7 @@ def check_C07(tier):
     t = tier == "thorough"
     engine_run(c, "limit", "LimitMenu", lines="Lines3", maxlines=4 if t else 3, maxfiles=3 if t else 2, tdefs=("plain", "vdef") if t else ("plain",))
     engine_run(c, "limit-join", "LimitJoinMenu", lines="LinesJ", maxlines=3, maxfiles=2, tdefs=("plain",))
+    engine_run(c, "limit-distinct-agg", "LimitDistinctMenu", lines="Lines3", maxlines=4, maxfiles=1, tdefs=("plain",))
     engine_follow_run(c, "limit", "FollowMenu", lines="Lines3", maxlines=4 if t else 3, sample=4000 if t else 1200)
     laws_trace(c, 2 if t else 1, 300 if t else 100)
     engine_sim(c, "limit", "LimitMenu", lines="Lines4", maxlines=10, num=2000 if t else 150, modes=("batch",))
@@ -693,6 +694,8 @@ def check_C09(tier):
     # the same functions over two rows (state kept between rows or between statements of one process: a pattern that is no regular expression, evaluated again)
     engine_run(c, "cal-rows", "CalMenu", lines="LinesCal", maxlines=2, maxfiles=1, modes=("incr",), tdefs=("plain",), invs=["TypeOK", "IncrSelectRefinesSem"], props=())
     engine_run(c, "cal-boundary-agg", "CalBoundaryAggMenu", lines="LinesPair", maxlines=2, maxfiles=1, modes=("batch", "incr"), tdefs=("plain",), invs=["TypeOK"], props=())
+    # a joined file that is missing, lacks the join column or cannot be read (a directory): an error or an orderly end, never a hang
+    engine_run(c, "join-errors", "BadJoinMenu", lines="LinesJ", maxlines=1, maxfiles=1, tdefs=("plain",), invs=["TypeOK"], props=())
     # aggregates over groups whose argument is NULL everywhere, extremes in running sums, HAVING on empty aggregates
     engine_run(c, "agg-null", "AggMenu", lines="LinesAgg", maxlines=2, maxfiles=1, tdefs=("plain",), invs=["TypeOK", "BatchRefinesSem"], props=())
     engine_run(c, "order-extremes", "OrderMenu", lines="LinesAgg", maxlines=2, maxfiles=1, tdefs=("plain",), invs=["TypeOK"], props=())
